@@ -1,0 +1,34 @@
+"""Optional execution tracing for external verification tooling.
+
+Tracing is off unless the environment variable ``Y0_VERIF`` is set to ``1``; when off, :func:`trace`
+does nothing. When on, events are collected in memory and can be read with :func:`drain`.
+"""
+
+import os
+from typing import Any
+
+__all__ = ["drain", "trace"]
+
+_ENABLED = os.environ.get("Y0_VERIF") == "1"
+_EVENTS: list[dict[str, Any]] = []
+
+
+def trace(kind: str, **fields: Any) -> None:
+    """Record an event (only if tracing is enabled)."""
+    if _ENABLED:
+        _EVENTS.append({"ev": kind, **{k: _plain(v) for k, v in fields.items()}})
+
+
+def drain() -> list[dict[str, Any]]:
+    """Return the recorded events and forget them."""
+    rv = list(_EVENTS)
+    _EVENTS.clear()
+    return rv
+
+
+def _plain(value: Any) -> Any:
+    if isinstance(value, set | frozenset | list | tuple):
+        return sorted(str(v) for v in value)
+    if isinstance(value, int | bool) or value is None:
+        return value
+    return str(value)
